@@ -262,6 +262,9 @@ func zzSpecParse(kind int, text string) zzSpec {
 	if len(lines) < 2 || lines[0] != header || strings.TrimSpace(lines[1]) != "" {
 		return res
 	}
+	// keys and values are trimmed of ASCII whitespace only: reference names
+	// and upstream locations may begin or end with non-ASCII space characters
+	trim := func(s string) string { return strings.Trim(s, " \t\r\n\v\f") }
 	var order []string
 	switch kind {
 	case zzKindRef:
@@ -273,7 +276,7 @@ func zzSpecParse(kind int, text string) zzSpec {
 	}
 	pos := 0 // index in order of the next expected key
 	for _, line := range lines[2:] {
-		line = strings.TrimSpace(line)
+		line = trim(line)
 		if kind == zzKindAnn && line == BeginMessage {
 			break
 		}
@@ -281,7 +284,7 @@ func zzSpecParse(kind int, text string) zzSpec {
 		if !found {
 			return res
 		}
-		key, value = strings.TrimSpace(key), strings.TrimSpace(value)
+		key, value = trim(key), trim(value)
 		at := -1
 		for i, k := range order {
 			if k == key {
